@@ -1030,3 +1030,63 @@ TAM_F = dict(TAM, out='Py_TranscriptAnnotationModel_fusion', imports=['Model.Rma
                        ('_e.location.start', {'_e': 'exon'}, '(fst {_e})', 'Z'), ('_e.location.end', {'_e': 'exon'}, '(snd {_e})', 'Z')])
 TARGETS += [dict(TAM_F, func='get_upstream_exon_end', coq_name='py_upstream_exon_end'),
             dict(TAM_F, func='get_downstream_exon_start', coq_name='py_downstream_exon_start')]
+
+# ---------------------------------------------------------------------------------------------- C05 adjacent variants -> MNV
+# (27) seqvar/VariantRecord.py create_mnv_from_adjacent: the accumulation loop and `end = variants[-1].location.end`
+#      (slice `var_ids = []` .. `end = ..`)                                                     vs Mnv.create_mnv
+#      Observable: (start, end, ref, alt, var_ids), the arguments of the VariantRecord built after the slice.  The
+#      seqname / GENE_ID / TRANSCRIPT_ID copied from the first record are outside (ignored statements; nothing inside
+#      the slice reads them).  start / ref / alt are first bound inside the loop: maybe-unbound locals; the empty list
+#      is the IndexError of variants[-1].
+MNV = dict(out='Py_mnv', file='moPepGen/seqvar/VariantRecord.py', cls=None, imports=['Model.Mnv'],
+           types={'mrec': 'mrec', 'mnv': 'mnv'})
+TARGETS.append(dict(MNV, func='create_mnv_from_adjacent', coq_name='py_create_mnv',
+    args=[('variants', 'list mrec')], params={'variants': ('variants', 'list mrec')},
+    slice=('var_ids = []', 'end = variants[-1].location.end'), slice_pre=[],
+    slice_post=['return mnv__(start, end, ref, alt, var_ids)'],
+    var_types={'var_ids': 'list (list Z)'},
+    ignore_stmts=[r'^seqname = v\.location\.seqname$', r"^if 'TRANSCRIPT_ID' in v\.attrs:"],
+    maybe_locals={'start': 'Z', 'ref': 'list Z', 'alt': 'list Z'},
+    ret_ty='mnv', res_ty='option mnv', ok='(Some {})', stub='Some (mkMnv 0 0 [] [] [])',
+    errors={'UnboundLocalError': 'None', 'IndexError': 'None'}, raises=[],
+    patterns=[('mnv__(_a, _b, _c, _d, _e)', {'_a': 'Z', '_b': 'Z', '_c': 'list Z', '_d': 'list Z', '_e': 'list (list Z)'},
+               '(mkMnv {_a} {_b} {_c} {_d} {_e})', 'mnv'),
+              ('variants[-1].location.end', {}, '(option_map m_end (py_index variants (-1)))', 'opt:IndexError:Z'),
+              ('_v.location.start', {'_v': 'mrec'}, '(m_start {_v})', 'Z'),
+              ('_v.ref', {'_v': 'mrec'}, '(m_ref {_v})', 'list Z'), ('_v.alt', {'_v': 'mrec'}, '(m_alt {_v})', 'list Z'),
+              ('_v.id', {'_v': 'mrec'}, '(m_id {_v})', 'list Z')],
+    stmt_patterns=[('var_ids.append(_x)', {'_x': 'list Z'}, 'var_ids', '({cur} ++ [{_x}])')]))
+
+#      find_mnvs_from_adjacent_variants: the scan of ONE comb (slice `v_t = variants[i_t]` .. the `for j in range(..)` loop)
+#                                                                                                 vs Mnv.scan
+#      Observable: the combs appended to level k, in order.  Trusted: the statement that files new_comb under key k of
+#      the level dictionary (append, creating the list on first use) is an append to the level-k list (stmt_rewrites,
+#      exact text); `x.type not in compatible_type_map` / `compatible_type_map[x.type] == type0` are Mnv.known_type /
+#      Mnv.class_is (type0 is the class of the first record); range(a, b) is PyRt.py_range.
+#      NOT translated: the level dictionary itself (keyed by the loop index k, `k - 1 not in ..` / `.items()`): the
+#      model keeps the levels as a function of k (Mnv.level); the comprehension [variants[x] for x in comb] is Mnv.pick.
+TARGETS.append(dict(MNV, func='find_mnvs_from_adjacent_variants', coq_name='py_mnv_scan',
+    args=[('variants', 'list mrec'), ('type0', 'Z'), ('comb', 'list Z'), ('i_t', 'Z')],
+    params={'variants': ('variants', 'list mrec'), 'max_adjacent_as_mnv': (None, 'opaque')},
+    pre_env={'type0': ('type0', 'Z'), 'comb': ('comb', 'list Z'), 'i_t': ('i_t', 'Z')},
+    slice=('v_t = variants[i_t]', 'for j in range(i_t + 1, len(variants)):'),
+    slice_pre=['new__ = []'], slice_post=['return new__'],
+    var_types={'new__': 'list (list Z)'},
+    ret_ty='list (list Z)', res_ty='option (list (list Z))', ok='(Some {})', stub='Some [[-7]]',
+    errors={'IndexError': 'None'}, raises=[],
+    patterns=[('range(_a, _b)', {'_a': 'Z', '_b': 'Z'}, '(py_range {_a} {_b})', 'list Z'),
+              ('len(variants)', {}, '(zlen variants)', 'Z'),
+              ('_v.type not in compatible_type_map', {'_v': 'mrec'}, '(negb (known_type (m_ty {_v})))', 'bool'),
+              ('compatible_type_map[_v.type] == type0', {'_v': 'mrec'}, '(class_is (m_ty {_v}) type0)', 'bool'),
+              ('_v.location.start', {'_v': 'mrec'}, '(m_start {_v})', 'Z'), ('_v.location.end', {'_v': 'mrec'}, '(m_end {_v})', 'Z')],
+    stmt_rewrites=[('if k in adjacent_combs:\n    adjacent_combs[k].append(new_comb)\nelse:\n    adjacent_combs[k] = [new_comb]',
+                    'new__.append(new_comb)')],
+    stmt_patterns=[('new__.append(_x)', {'_x': 'list Z'}, 'new__', '({cur} ++ [{_x}])')]))
+#      The dictionary literal compatible_type_map is transcribed by hand in Mnv.compat_class; this target pins its text
+#      (a changed literal is refused and breaks code_mnv_translated).
+_MNV_MAP = "compatible_type_map = {'SNV': 'SNV', 'RNAEditingSite': 'SNV', 'INDEL': 'INDEL'}"
+TARGETS.append(dict(MNV, func='find_mnvs_from_adjacent_variants', coq_name='py_mnv_type_map_pinned',
+    args=[], params={'variants': (None, 'opaque'), 'max_adjacent_as_mnv': (None, 'opaque')},
+    slice=(_MNV_MAP, _MNV_MAP), slice_pre=[], slice_post=['return pinned__'],
+    ret_ty='bool', res_ty='bool', ok='{}', stub='false', errors={}, raises=[],
+    patterns=[], stmt_rewrites=[(_MNV_MAP, 'pinned__ = True')]))
